@@ -15,11 +15,35 @@ import ast
 import copy
 
 MAX_ROWS = 64
+# record classes of the module being normalised: typing.NamedTuple classes, name -> field names in order
+_RECORDS = {}
+
+
+def _record_fields(e):
+    """{field: value expr} if e constructs a record (NamedTuple class of the module) from simple values, else None"""
+    if isinstance(e, ast.Call) and isinstance(e.func, ast.Name) and e.func.id in _RECORDS and not any(isinstance(a, ast.Starred) for a in e.args) and all(k.arg for k in e.keywords):
+        names, defaults = _RECORDS[e.func.id]
+        if len(e.args) > len(names):
+            return None
+        out = dict(zip(names, e.args))
+        for k in e.keywords:
+            if k.arg not in names or k.arg in out:
+                return None
+            out[k.arg] = k.value
+        for n in names:
+            if n not in out:
+                if n not in defaults:
+                    return None
+                out[n] = defaults[n]
+        return out if all(_simple(v) for v in out.values()) else None
+    return None
 
 
 def _simple(e):
     if isinstance(e, (ast.Constant, ast.Name)):
         return True
+    if isinstance(e, ast.Call):
+        return _record_fields(e) is not None
     if isinstance(e, ast.Attribute):
         return _simple(e.value)
     if isinstance(e, (ast.Tuple, ast.List)):
@@ -86,7 +110,23 @@ class _Beta(ast.NodeTransformer):
 
 
 class _FoldAttr(ast.NodeTransformer):
-    """getattr(x, "n") -> x.n ; setattr(x, "n", v) statement -> x.n = v"""
+    """getattr(x, "n") -> x.n ; setattr(x, "n", v) statement -> x.n = v ; Record(a=1, b=2).a -> 1"""
+
+    def visit_Attribute(self, node):
+        self.generic_visit(node)
+        if isinstance(node.ctx, ast.Load):
+            f = _record_fields(node.value)
+            if f is not None and node.attr in f:
+                return ast.copy_location(copy.deepcopy(f[node.attr]), node)
+        return node
+
+    def visit_Subscript(self, node):
+        self.generic_visit(node)
+        if isinstance(node.ctx, ast.Load) and isinstance(node.slice, ast.Constant) and isinstance(node.slice.value, int):
+            f = _record_fields(node.value)
+            if f is not None and -len(f) <= node.slice.value < len(f):
+                return ast.copy_location(copy.deepcopy(list(f.values())[node.slice.value]), node)
+        return node
 
     def visit_Call(self, node):
         self.generic_visit(node)
@@ -149,6 +189,11 @@ def _has_loop_jump(stmts, kinds):
 class Unroller(ast.NodeTransformer):
     def __init__(self, tree):
         self.mod_consts, self.mod_funcs, self.classes = {}, {}, {}
+        _RECORDS.clear()
+        for st in tree.body:
+            if isinstance(st, ast.ClassDef) and any(ast.unparse(b).split(".")[-1] == "NamedTuple" for b in st.bases) and "__new__" not in {x.name for x in st.body if isinstance(x, ast.FunctionDef)}:
+                flds = [x for x in st.body if isinstance(x, ast.AnnAssign) and isinstance(x.target, ast.Name)]
+                _RECORDS[st.name] = ([x.target.id for x in flds], {x.target.id: x.value for x in flds if x.value is not None and isinstance(x.value, ast.Constant)})
         for st in tree.body:
             self._note(st, self.mod_consts, self.mod_funcs)
             if isinstance(st, ast.ClassDef):
